@@ -3,9 +3,10 @@ import re, runner, mergefam
 
 def main(tier, seed, t0, only=None):
     q = tier == 'quick'
-    QP = [(0, 0), (0, 2), (1, 0), (1, 1), (1, 5), (1, 9), (1, 11), (1, 15), (2, 0), (2, 5), (2, 6), (2, 7), (2, 11), (3, 8), (4, 10), (5, 1), (5, 5), (12, 1), (12, 14), (13, 9), (13, 13), (16, 17), (17, 16), (19, 20), (20, 19)]
+    QP = [(0, 0), (0, 2), (1, 0), (1, 1), (1, 5), (1, 9), (1, 11), (1, 15), (2, 0), (2, 5), (2, 6), (2, 7), (2, 11), (3, 8), (4, 10), (5, 1), (5, 5), (12, 1), (12, 14), (13, 9), (13, 13), (16, 17), (17, 16), (19, 20), (20, 19), (21, 22), (22, 21)]
     pairs = QP if q else mergefam.PAIRS19 + [(3, 3), (10, 10), (4, 4), (16, 17), (16, 16), (17, 16), (17, 17), (3, 18), (18, 18), (18, 3), (19, 20), (20, 19)]
     J = mergefam.jobs('C19', 19, tier, pairs=pairs, twice=1)
+    J += mergefam.jobs('C19', 19, tier, pairs=[(24, 23), (1, 8), (2, 14)] if not q else [(24, 23), (1, 8)], twice=2, tagx='.then-other-text')
     J += mergefam.jobs('C19', 19, tier, defines=('ALLOC_SIMPLE',), pairs=[(1, 1), (2, 7), (2, 0), (0, 2), (5, 5), (2, 5)] if q else [(1, 1), (2, 7), (2, 0), (0, 2), (5, 5), (13, 13), (2, 11), (1, 12), (2, 5), (12, 14), (3, 15)], twice=0)
     for j in mergefam.jobs('C19', 19, tier, defines=('ALLOC_SIMPLE',), pairs=[(1, 1), (2, 7)], twice=1):
         j.name += '.twice'; J.append(j)
